@@ -12,7 +12,7 @@ import z3
 from .contract import SPECS
 from .values import *  # noqa: F403
 
-KIND_OF_ANN = {"int": "int", "bytes": "bytes", "bool": "bool", "str": "str", "Node": "ref"}
+KIND_OF_ANN = {"int": "int", "bytes": "bytes", "bool": "bool", "str": "str", "Node": "ref", "json": "json"}
 
 
 _GLOBAL: dict = {}
@@ -45,12 +45,19 @@ def spec_function(ex, name: str, st):
             sorts.extend([z3.ArraySort(I, ELEM_SORT[k[5:]]), I])
         else:
             sorts.append(sort_of_kind(k))
+    # a specification function that looks at nodes is a function of the HEAP as well: the heap arrays are explicit parameters, so that the
+    # same definition can be applied in the pre-state and in the post-state of a function that allocates or writes nodes
+    heap_fields = sorted(st.heap) if any(k == "ref" or k == "list:ref" for _, k in params) else []
+    hconsts = {fld: z3.Const(f"{name}_H_{fld}", st.heap[fld].sort()) for fld in heap_fields}
+    sorts.extend(hconsts[fld].sort() for fld in heap_fields)
     f = z3.RecFunction(f"spec_{name}", *sorts, sort_of_kind(ret))
-    ex.rec_specs[name] = (f, ret)  # registered before the body is translated: recursion
+    ex.rec_specs[name] = (f, ret, heap_fields)  # registered before the body is translated: recursion
     view = st.clone()
     view.path = []
     view.guards = []
     view.store = {}
+    if heap_fields:
+        view.heap = dict(hconsts)
     zargs = []
     for p, k in params:
         if k.startswith("list:"):
@@ -72,6 +79,7 @@ def spec_function(ex, name: str, st):
         ex.in_recdef -= 1
     if body.kind != ret and not (ret == "ref" and body.kind == "ref"):
         raise Unsupported(f"spec {name}: body has kind {body.kind}, declared {ret}")
+    zargs.extend(hconsts[fld] for fld in heap_fields)
     z3.RecAddDefinition(f, zargs, body.z)
     return ex.rec_specs[name]
 
